@@ -949,6 +949,60 @@ theorem C13_request_timed_no_offer (T n : Int) (xid xid2 hw : Bytes) (user : Lis
   have hc : timedCall T n offerMatcher a1 H = none := by simp [timedCall, hrun, answer]
   exact ⟨hrun, by simp [requestTimed, discoverOfferTimed, hc], by simp [requestTimed, discoverOfferTimed, hc]⟩
 
+/-! ### the script-level model (`runCall`, the function whose output the
+client4/client6 correspondence streams compare with the real clients) -/
+
+/-- **C13 (script level, quiescent).** The script that injects the routed
+stream (in time order), every datagram applied at quiescence — on a deadline or
+not — allows EXACTLY ONE result: the timed machine's on the stream's observation
+sequence, i.e. (by `C13_call_refines_timed`) the abstract call's answer.  The
+same holds whatever the sync flags when no datagram arrives exactly on a
+retransmission deadline `T·(2^(k+1) − 1)`. -/
+theorem C13_call_script {α : Type} (T n : Int) (m : α → Bool) (arr : List (Int × α)) (H : Int) (hT : 0 < T)
+    (ho : Ordered arr) :
+    runCall T n (scriptOf m arr) H = [runObs T n (obsOf m quiescent arr) H] ∧
+    (∀ sy : Nat → Bool, (∀ a ∈ arr, ∀ k : Nat, a.1 ≠ T * (2 ^ (k + 1) - 1)) →
+      runCall T n (scriptFrom m sy 0 arr) H = [runObs T n (obsOf m quiescent arr) H]) :=
+  ⟨runCall_scriptOf hT m arr H ho, fun sy hnd => runCall_scriptFrom_no_coincidence hT m sy arr H ho hnd⟩
+
+/-- **C13 (script level, racing: what is NOT the abstract call, exactly).** ANY
+sync flags (datagrams racing with per-try deadlines, where the script-level
+model lets a datagram be lost to the registration being torn down, or be seen by
+the old or the new try).  For EVERY result `r` the model allows:
+(1) if `r` is a response it is a packet of the stream that the matcher accepts,
+returned at its arrival instant, and every accepted packet BEFORE it arrived
+exactly on a retransmission deadline — so `r` is `find?` of the stream with
+some deadline-coincident packets deleted;
+(2) if `r` is not a response, every accepted packet of the stream arrived
+exactly on a retransmission deadline, or at/after the budget.
+In particular a rejected packet is never returned, nothing is invented, and
+without a coincidence the answer is `find?` of the whole stream. -/
+theorem C13_call_script_racing {α : Type} (T n : Int) (m : α → Bool) (sy : Nat → Bool) (arr : List (Int × α))
+    (H : Int) (hT : 0 < T) (ho : Ordered arr) (r : Result) (hr : r ∈ runCall T n (scriptFrom m sy 0 arr) H) :
+    (∀ t i, r.ret = some (t, .resp i) → ∃ p, arr[i]? = some (t, p) ∧ m p = true ∧
+      ∀ j q, j < i → arr[j]? = some q → m q.2 = true → ∃ k : Nat, q.1 = T * (2 ^ (k + 1) - 1)) ∧
+    ((∀ t i, r.ret ≠ some (t, .resp i)) → ∀ a ∈ arr, m a.2 = true →
+      (∃ k : Nat, a.1 = T * (2 ^ (k + 1) - 1)) ∨ (0 ≤ n ∧ callBudget T n ≤ a.1)) :=
+  runCall_stream hT m sy arr H ho r hr
+
+/-- The reading "the script-level model returns `find?` of the routed stream"
+for EVERY script, racing ones included. -/
+def C13_call_script_full : Prop :=
+  ∀ (T n : Int) (m : Nat → Bool) (sy : Nat → Bool) (arr : List (Int × Nat)) (H : Int), 0 < T → Ordered arr →
+    InBudget T n arr → ∀ r ∈ runCall T n (scriptFrom m sy 0 arr) H, answer arr r.ret = (streamOf arr).find? m
+
+/-- False of the model (which is deliberately a superset of the Go runtime's
+behaviour there): an acceptable datagram injected, without waiting for
+quiescence, at the very instant of the first deadline may be delivered to the
+registration being torn down and lost; the call then returns the NEXT acceptable
+packet (here: packet number 1 instead of number 0). -/
+theorem C13_call_script_counterexample : ¬ C13_call_script_full := by
+  intro h
+  have := h 1000 3 (fun p => p == 7 || p == 8) (fun _ => false) [(1000, 7), (1500, 8)] 10000 (by decide)
+    ⟨by decide, by decide⟩ (fun _ => by decide) ⟨[0, 1000], some (1500, .resp 1)⟩ (by decide)
+  revert this
+  decide
+
 /-! Non-vacuity of the refinement: concrete timed runs (kernel-evaluated). -/
 
 /-- packets are numbers, the matcher accepts 7; T = 1000, 3 tries; a rejected 3
@@ -979,6 +1033,17 @@ example : (runObs 1000 3 (obsOf (· == 7) quiescent [(400, 3), (1000, 5)] ++
 /-- an acceptable packet arriving exactly at the budget, applied at quiescence: not returned -/
 example : (runObs 1000 3 (obsOf (· == 7) quiescent [(400, 3), (7000, 7)]) 10000).ret = some (7000, .noResp) := by
   decide
+
+/-- the script-level model on the first stream, all at quiescence: one result -/
+example : runCall 1000 3 (scriptOf (· == 7) [(400, 3), (1000, 5), (2500, 7), (2600, 7)]) 10000 =
+    [⟨[0, 1000], some (2500, .resp 2)⟩] := by decide
+
+/-- … racing: an acceptable packet exactly on the first deadline may be seen by
+the new try (two transmissions), be lost (then the next acceptable packet,
+number 1, is returned), or be seen by the old try (one transmission): three results, all covered by
+`C13_call_script_racing` -/
+example : runCall 1000 3 (scriptFrom (fun p => p == 7 || p == 8) (fun _ => false) 0 [(1000, 7), (1500, 8)]) 10000 =
+    [⟨[0, 1000], some (1000, .resp 0)⟩, ⟨[0, 1000], some (1500, .resp 1)⟩, ⟨[0], some (1000, .resp 0)⟩] := by decide
 
 /-- DORA on the timed machine with the hostile stream of the example above:
 OFFER at 120 ns after a wrong-type packet, then (second call) a wrong-server
